@@ -69,11 +69,26 @@ def _check_encoding(out, dc, order, tail, eng, what):
     return None
 
 
+def _probe(impl, alg, plen, slen, rounds):
+    """cheap counterexample search before the deciding query (a candidate only: the runner replays it on the real code): the
+    real routine and the specification transcription, both with real digests, on four concrete inputs of this shape.  When the
+    two computations differ the solver query can take its whole budget to say so; a concrete disagreement says it at once."""
+    r = replay_crypt(impl, alg, plen, slen, rounds, [0x61] * plen, [0x62] * slen)
+    if r:
+        pwd = SBytes([0x61] * plen)
+        salt = SStr(["b"] * slen)
+        return _viol(impl, alg, plen, slen, rounds, "concrete probe: %s" % r, None, pwd, salt)
+    return None
+
+
 # ------------------------------------------------------------------ sha256-crypt / sha512-crypt (passlib and libpass)
 def ob_sha2(impl, use_512, plen, slen, rounds):
     err = CR.selfcheck() if (plen, rounds) == (0, 1000) else None
     if err:
         return harness_error(err)
+    hit = _probe(impl, "sha512" if use_512 else "sha256", plen, slen, rounds)
+    if hit:
+        return hit
     import passlib.utils.binary as B
     alg = "sha512" if use_512 else "sha256"
     pwd = SBytes.var("p", plen)
@@ -184,6 +199,9 @@ def replay_crypt(impl, alg, plen, slen, rounds, pw, salt):
 def ob_md5(use_apr, plen, slen):
     import passlib.handlers.md5_crypt as M
     import passlib.utils.binary as B
+    hit = _probe("passlib", "apr1" if use_apr else "md5", plen, slen, 1000)
+    if hit:
+        return hit
     pwd = SBytes.var("p", plen)
     salt, scons = _salt(slen)
     rec = RecEngine()
@@ -221,6 +239,9 @@ def ob_sha1(plen, slen, rounds):
     from passlib.hash import sha1_crypt
     import passlib.handlers.sha1_crypt as M
     import passlib.utils.binary as B
+    hit = _probe("passlib", "sha1", plen, slen, rounds)
+    if hit:
+        return hit
     pwd = SBytes.var("p", plen)
     salt, scons = _salt(slen)
     rec = RecEngine()
